@@ -253,6 +253,16 @@ func (c *Conn) serve() {
 }
 
 func (c *Conn) pushFramesLoop() {
+	// this goroutine runs outside the recover of serve and of the server's
+	// connection handler: a pixel format it cannot encode (failf panics)
+	// must end this connection, not the process
+	defer func() {
+		if e := recover(); e != nil {
+			log.Debugf("Client disconnect: %v", e)
+			c.c.Close()
+		}
+	}()
+
 	for {
 		select {
 		case ur, ok := <-c.fbupc:
